@@ -13,7 +13,7 @@ environment, both modes, plus the impossible-policy flag).
 FULL STATEMENT: `typeOf_sound` below (a `def … : Prop`, all expressions, both modes).
 
 PROVED (1): `typeOf_sound_partial2` — the statement for STRICT mode and every expression of `Cedar.C03.InFragment2 env`
-(Lemmas/TypecheckDefs2.lean), i.e. ALL constructs the model types except `unknown`:
+(= `InFragmentM .strict env`, Lemmas/TypecheckDefs2.lean), i.e. ALL constructs:
     literals (incl. entity uids), `principal` `action` `resource` `context`, template slots (in an environment linked for
     that slot), `&&`, `||`, `!`, `if` WITH ARBITRARY BRANCHES (every instance of either branch type is an instance of the
     least upper bound: `lub_inst_l`, `lub_inst_r`), unary `-`, `+ - *`, `==`, `<` `<=` (longs and the datetime / duration
@@ -22,20 +22,23 @@ PROVED (1): `typeOf_sound_partial2` — the statement for STRICT mode and every 
     `containsAny` `isEmpty`, record literals (distinct keys — Rust's `ExprKind::Record` is a map), `in` (entity in entity,
     entity in set of entities; the `False` typing of entity types not related by `descendants`; the action-literal special
     cases typed `True` / `False` from the action hierarchy), extension function calls (constructors and methods: a value of
-    the result type or an `ext` error).
+    the result type or an `ext` error); `unknown` vacuously (the model does not type it).
   Additional premises w.r.t. the first fragment: `SchemaWF2` (the entity-type table is a map, action uids have an action
   type, `ancestors` / `descendants` of the action hierarchy are inverse — all true of every schema Rust constructs) and
   `ActionsPresent` (the store holds the schema's action entities — `Entities::from_entities(.., schema)` adds them; without
   it `action in Action::"group"`, typed `True`, evaluates to `false` on a store that lacks the action entity).
-PROVED (2): `typeOf_sound_partial` — the statement for BOTH modes on the smaller `Cedar.InFragment` (Lemmas/TypecheckDefs.lean):
-    literals, variables, `&&`, `||`, `!`, `if` with one syntactically flat branch, unary `-`, `+ - *`, `==`, `like`, `is`,
-    `has` and `.` on records and entities.
-NOT proved: PERMISSIVE mode for the constructs that are only in (1) — there the static types contain entity-type unions
-(`lub` of `User` and `Group`) and `Set<Never>`, which the invariant `CedarType.mono` of the proofs excludes; `unknown`
-(the model answers `outside`); a slot in an environment that has no type for it (Rust types it `AnyEntity`; such a slot
-is unbound at run time, see `SlotsBound` in the full statement); record literals with duplicate keys (not representable in
-Rust).  These are covered by the differential run against Rust and by the implementation-level soundness search of
-harness/src/c03.rs only.
+  Policy level: `strict_validation_sound` (templates) and `strict_validation_sound_static` — acceptance by `checkPolicy`
+  in all environments ⇒ boolean or permitted error on every conformant request (its environment is among those checked).
+PROVED (2): `typeOf_sound_partialM` — the statement for BOTH modes on `InFragmentM m env`; for PERMISSIVE mode this is every
+    construct as in (1), except that an `if` (typechecked in both branches) has a syntactically flat branch (boolean / long /
+    string kind) and a set literal is non-empty with syntactically flat elements.
+    (`typeOf_sound_partial`, the first fragment `Cedar.InFragment` for both modes, is kept; it needs `SchemaWF` only.)
+NOT proved: PERMISSIVE typing of an `if` / set literal that joins record, set or entity types, and of the empty set literal —
+there the static types contain entity-type unions (`lub` of `User` and `Group`) and `Set<Never>`, which the invariant
+`CedarType.mono` of the proofs excludes; a slot in an environment that has no type for it (Rust types it `AnyEntity`; such a
+slot does not occur: `link_request_env` gives every slot of the policy a type; see `SlotsBound` in the full statement);
+record literals with duplicate keys (not representable in Rust).  These are covered by the differential run against Rust
+and by the implementation-level soundness search of harness/src/c03.rs only.
 `strict_implies_permissive` (full statement: a `def … : Prop`) is PROVED as `strict_implies_permissive_partial` — with the
 same type and capabilities in both modes — for the expressions of `InFragment2` whose least upper bounds have a flat side
 (`SIPFragment`: an `if` typechecked in both branches has a syntactically flat branch, set-literal elements are
@@ -89,6 +92,37 @@ def typeOf_sound : Prop :=
     ∀ (e : Expr) (caps : Capabilities) (τ : CedarType) (c' : Capabilities), RecordKeysDistinct e = true →
       typeOf m s env e caps = .ok (τ, c') → CapsHold w caps →
       TySound w e τ c' ∧ (τ = .bool .tt → CapsHold w c')
+
+/-- `typeOf_sound` in BOTH modes for the expressions of `InFragmentM m env` (strict: every construct; permissive: every
+construct, but an `if` has a syntactically flat branch and a set literal is non-empty with syntactically flat elements). -/
+theorem typeOf_sound_partialM (m : ValidationMode) (s : Schema) (env : RequestEnv) (w : World)
+    (hWF : SchemaWF2 s) (henv : EnvMatches s env w.q) (hreq : ConformsRequest s w.q) (hst : StoreConforms s w.es)
+    (hact : ActionsPresent s w.es) (hsl : SlotsMatch env w.sl)
+    (e : Expr) (hf : InFragmentM m env e = true) (caps : Capabilities) (τ : CedarType) (c' : Capabilities)
+    (h : typeOf m s env e caps = .ok (τ, c')) (hc : CapsHold w caps) :
+    TySound w e τ c' ∧ (τ = .bool .tt → CapsHold w c') :=
+  (soundM hWF henv e hf caps τ c' h).2 ⟨hreq, hst, hsl, hact⟩ hc
+
+/-- Corollary (both modes): a condition that the typechecker does not reject in the environment of a conformant request
+evaluates to a boolean, or fails with a permitted error. -/
+theorem accepted_boolean_or_permitted_errorM (m : ValidationMode) (s : Schema) (env : RequestEnv) (w : World)
+    (hWF : SchemaWF2 s) (henv : EnvMatches s env w.q) (hreq : ConformsRequest s w.q) (hst : StoreConforms s w.es)
+    (hact : ActionsPresent s w.es) (hsl : SlotsMatch env w.sl)
+    (e : Expr) (hf : InFragmentM m env e = true) (v : Verdict) (hv : checkEnv m s env e = some v) (hne : v ≠ .fail) :
+    (∃ b, w.eval e = .ok (.prim (.bool b))) ∨ (∃ err, w.eval e = .error err ∧ Permitted err) := by
+  unfold checkEnv at hv
+  cases hE : expectOneOf (typeOf m s env e []) [boolT] with
+  | error err =>
+    rw [hE] at hv
+    cases err <;> simp at hv
+    exact (hne hv.symm).elim
+  | ok p =>
+    obtain ⟨τ, c'⟩ := p
+    obtain ⟨ht, hs⟩ := expectOneOf_ok hE
+    have hs' := (typeOf_sound_partialM m s env w hWF henv hreq hst hact hsl e hf [] τ c' ht (capsHold_nil w)).1
+    rcases hs'.bool_cases (subtype_bool hs) with he | ⟨b, hb, _, _⟩
+    · exact Or.inr he
+    · exact Or.inl ⟨b, hb⟩
 
 /-- `typeOf_sound` in STRICT mode for the expressions of `InFragment2 env`: every construct except `unknown`
 (slots: in environments linked for them; record literals: distinct keys). -/
@@ -530,6 +564,10 @@ example : SIPFragment ex2Sip = true := by decide +kernel
 example : checkEnv .permissive ex2Schema ex2Env ex2Sip = some .bool :=
   strict_accepted_implies_permissive_accepted ex2Schema ex2Env ex2World.q ex2_schemaWF ex2_envMatches ex2Sip (by decide +kernel)
     (by decide +kernel) .bool (by decide +kernel) (by decide)
+/-- the both-modes theorem instantiated in permissive mode -/
+example : (∃ b, ex2World.eval ex2Sip = .ok (.prim (.bool b))) ∨ (∃ err, ex2World.eval ex2Sip = .error err ∧ Permitted err) :=
+  accepted_boolean_or_permitted_errorM .permissive ex2Schema ex2Env ex2World ex2_schemaWF ex2_envMatches ex2_request ex2_store
+    ex2_actions ex2_slots ex2Sip (by decide +kernel) .bool (by decide +kernel) (by decide)
 /-- `False` from the hierarchy: a `Group` is never in a `User`; `True` from the action hierarchy: `view` is in `read` -/
 example : checkEnv .strict ex2Schema ex2Env (.binaryApp .mem (.var .resource) principal) = some .ff := by decide +kernel
 example : checkEnv .strict ex2Schema ex2Env (.binaryApp .mem (.var .action) (.lit (.entityUID ⟨"Action", "read"⟩))) = some .tt := by
